@@ -15,7 +15,7 @@ for a in range(N):
             pairs_t.append([a, b, ws])
 same = [(a,b,c) for a in range(N) for b in range(N) for c in range(N) if kind[a]==kind[b]==kind[c]]
 triples_q = [list(x) for x in same if x[0] in (2,3,5,7,12,16,17) and x[1] in (2,4,5,8,12,16,17) and x[2] in (3,2,6,5,12,17,16)] + [[30,17,17]]
-triples_t = [list(x) for x in same]
+triples_t = [list(x) for x in same if list(x).count(30) <= 1]  # two or three three-member objects in one triple: > 50000 paths, not claimed
 broken_q = [[t, p] for t in (0, 1, 3, 7, 8, 12, 13, 17, 23, 25, 29) for p in range(0, 12)]
 broken_t = [[t, p] for t in range(N) for p in range(0, 20)]
 spec = {
@@ -26,7 +26,7 @@ spec = {
              "thorough": [{"entry": "HPair", "args": pairs_t}, {"entry": "HTriple", "args": triples_t}, {"entry": "HBroken", "args": broken_t}]}}],
  "bounds": {"templates": "31 value templates: null, bool, integers (d, dd, -d), strings (1-2 plain bytes, \\u00HL escape, two-character escapes, empty), arrays (empty, [d], [d,-d], [null], [string], nested, mixed), objects (empty, 1 member, 2 and 3 members with independent symbolic names - so reordered and duplicate names, also a repeated name around a distinct one, are inside -, nested array, null member, string member values in three spellings, object inside object), arrays containing objects incl. two sibling objects (one / two members each, names independent - so a member of one sibling may reappear in the other)",
             "leaves": "every digit, every printable-ASCII string/name byte, every hex spelling of the escape, every choice of whitespace byte (space, tab, LF, CR) at each gap are symbolic",
-            "pairs": "quick: all same-kind template pairs plus one cross-kind representative pair per kind pair; thorough: all 31x31 pairs x 4 whitespace variants; triples of same-kind templates for transitivity; single-byte corruption for totality"},
+            "pairs": "quick: all same-kind template pairs plus one cross-kind representative pair per kind pair; thorough: all 31x31 pairs x 4 whitespace variants; triples of same-kind templates for transitivity (at most one three-member object per triple); single-byte corruption for totality"},
  "assumptions": ["sync.Pool (jx.GetDecoder) modelled as always allocating a fresh decoder", "strings restricted to printable ASCII (multi-byte UTF-8 is outside the bound)", "for texts in which two member names of one object coincide only order-independence of the verdict is demanded (RFC 8259 leaves their meaning open)", "malformed texts: totality only"],
  "out_of_claim": "every number spelling with '.', 'e' or 'E' (strconv.ParseFloat / big.Rat path) - so 1 vs 1.0 vs 1e0 and integers beyond 2^53 are NOT decided by this check; longer strings, deeper nesting, non-ASCII"
 }
